@@ -4,6 +4,7 @@ import struct
 
 from .. import core, drive
 from ..indep import ihex
+from ..mon import faults
 from . import common
 
 ID = "C16"
@@ -125,40 +126,45 @@ def run_case(rec, case):
     else:
         src_used = src
     full = dict(case, size=size, dfu=dfu, uci=uci, caches=caches, route=route, spelling=spelling)
-    exc = None
-    try:
-        if route == "lib":
-            from suit_generator.cmd_image import ImageCreator
-            ImageCreator.create_files_for_update(src_used, st, pt, uci, dfu, caches)
-        elif route == "cmd":
-            from suit_generator import cmd_image
-            cmd_image.main(image="update", input_file=src_used, storage_output_file=st, dfu_partition_output_file=pt,
-                           update_candidate_info_address=uci, dfu_partition_address=dfu, dfu_max_caches=caches)
-        elif route == "build.py":
-            kc = drive.fresh(wd, ".config")
-            open(kc, "w").close()
-            rc, err = drive.script_sub(BUILD_PY, ["update", "--core", f"app,,,{kc}", "--zephyr-base", wd,
-                                                  "--input-file", src, "--storage-output-file", st,
-                                                  "--dfu-partition-output-file", pt, "--dfu-partition-address", hex(dfu),
-                                                  "--update-candidate-info-address", str(uci), "--dfu-max-caches",
-                                                  str(caches)], wd)
-            os.unlink(kc)
-            if rc != 0:
-                exc = RuntimeError(f"build.py exit {rc}: {err[-300:]}")
-        else:
-            argv = ["image", "update", "--input-file", src_used, "--storage-output-file", st, "--dfu-partition-output-file",
-                    pt, "--update-candidate-info-address", hex(uci), "--dfu-partition-address", str(dfu),
-                    "--dfu-max-caches", str(caches) if r.random() < 0.6 else "0" * r.choice([1, 2]) + str(caches)]
-            if route == "cli":
-                rc, e = drive.cli_inproc(argv)
+    def invoke():
+        exc = None
+        try:
+            if route == "lib":
+                from suit_generator.cmd_image import ImageCreator
+                ImageCreator.create_files_for_update(src_used, st, pt, uci, dfu, caches)
+            elif route == "cmd":
+                from suit_generator import cmd_image
+                cmd_image.main(image="update", input_file=src_used, storage_output_file=st, dfu_partition_output_file=pt,
+                               update_candidate_info_address=uci, dfu_partition_address=dfu, dfu_max_caches=caches)
+            elif route == "build.py":
+                kc = drive.fresh(wd, ".config")
+                open(kc, "w").close()
+                rc, err = drive.script_sub(BUILD_PY, ["update", "--core", f"app,,,{kc}", "--zephyr-base", wd,
+                                                      "--input-file", src, "--storage-output-file", st,
+                                                      "--dfu-partition-output-file", pt, "--dfu-partition-address", hex(dfu),
+                                                      "--update-candidate-info-address", str(uci), "--dfu-max-caches",
+                                                      str(caches)], wd)
+                os.unlink(kc)
                 if rc != 0:
-                    exc = e or RuntimeError(f"cli exit {rc}")
+                    exc = RuntimeError(f"build.py exit {rc}: {err[-300:]}")
             else:
-                rc, err = drive.cli_sub(argv, wd)
-                if rc != 0:
-                    exc = RuntimeError(f"cli exit {rc}: {err[-300:]}")
-    except Exception as e:  # noqa
-        exc = e
+                argv = ["image", "update", "--input-file", src_used, "--storage-output-file", st, "--dfu-partition-output-file",
+                        pt, "--update-candidate-info-address", hex(uci), "--dfu-partition-address", str(dfu),
+                        "--dfu-max-caches", str(caches) if r.random() < 0.6 else "0" * r.choice([1, 2]) + str(caches)]
+                if route == "cli":
+                    rc, e = drive.cli_inproc(argv)
+                    if rc != 0:
+                        exc = e or RuntimeError(f"cli exit {rc}")
+                else:
+                    rc, err = drive.cli_sub(argv, wd)
+                    if rc != 0:
+                        exc = RuntimeError(f"cli exit {rc}: {err[-300:]}")
+        except Exception as e:  # noqa
+            exc = e
+        return exc
+
+    exc = faults.run(f"{case['seed']}/{ID}/{case['n']}", invoke, p=0.08 if route in ("lib", "cmd", "cli") else 0)
+
     rec.count("route:" + route)
     rec.count("size-class:" + ("0" if size == 0 else "<64K" if size < 65536 else ">=64K"))
     rec.count(f"caches:{caches}")
